@@ -348,6 +348,12 @@ def robust_docs():
             for binding in ('early', 'late'):
                 out.append(('%s:data-root-%s:%d' % (dm, binding, i), '<scxml xmlns="%s" version="1.0"%s binding="%s" initial="s0"><datamodel>%s</datamodel><state id="s0"><transition event="e1" target="ok"/></state><state id="ok"/></scxml>' % (NS, dattr, binding, f)))
                 out.append(('%s:data-state-%s:%d' % (dm, binding, i), '<scxml xmlns="%s" version="1.0"%s binding="%s" initial="s0"><state id="s0"><transition event="e1" target="ok"/></state><state id="ok"><datamodel>%s</datamodel></state></scxml>' % (NS, dattr, binding, f)))
+    # an <invoke> whose attributes cannot be evaluated (or that cannot be started), in a state that is left afterwards
+    for dm, bad in (('lua', 'nofn()'), ('promela', 'nodecl + 1')):
+        for i, attrs in enumerate(['typeexpr="%s"' % bad, 'type="scxml" srcexpr="%s"' % bad, 'type="http://example.com/no-such-invoker"', 'type="scxml" src="file:///nonexistent/uscxml-verif/child.scxml"',
+                                   'type="scxml" id="iv" namelist="nodeclvar"', 'type="scxml" idlocation="no.such.location"']):
+            out.append(('%s:invoke-attr:%d' % (dm, i), '<scxml xmlns="%s" version="1.0" datamodel="%s" initial="s0"><state id="s0"><invoke %s><content><scxml xmlns="%s" version="1.0" datamodel="null"><state id="c"/></scxml></content></invoke>'
+                        '<transition event="e1" target="ok"/></state><state id="ok"><transition event="e1" target="s0"/></state></scxml>' % (NS, dm, attrs, NS)))
     return out
 
 
